@@ -252,23 +252,7 @@ def siddWriterHdr (pixelType : String) (rows cols : Nat) (iid1 : String) : Excep
 /-! ### glue: which function each method resolves to -/
 
 def glue : List (String × String) :=
-  [("SICDReader._get_dtypes", "NITFReader._get_dtypes"),
-   ("SICDReader.get_format_function", "SICDReader.get_format_function"),
-   ("SICDReader._check_image_segment_for_compliance", "SICDReader._check_image_segment_for_compliance"),
-   ("SICDReader._construct_block_bounds", "NITFReader._construct_block_bounds"),
-   ("SIDDReader._get_dtypes", "NITFReader._get_dtypes"),
-   ("SIDDReader.get_format_function", "NITFReader.get_format_function"),
-   ("SIDDReader._check_image_segment_for_compliance", "SIDDReader._check_image_segment_for_compliance"),
-   ("SIDDReader._construct_block_bounds", "NITFReader._construct_block_bounds"),
-   ("SICDWriter._get_dtypes", "NITFWriter._get_dtypes"),
-   ("SICDWriter.get_format_function", "SICDWriter.get_format_function"),
-   ("SICDWriter._check_image_segment_for_compliance", "NITFWriter._check_image_segment_for_compliance"),
-   ("SICDWriter._construct_block_bounds", "NITFWriter._construct_block_bounds"),
-   ("SIDDWriter._get_dtypes", "NITFWriter._get_dtypes"),
-   ("SIDDWriter.get_format_function", "NITFWriter.get_format_function"),
-   ("SIDDWriter._check_image_segment_for_compliance", "NITFWriter._check_image_segment_for_compliance"),
-   ("SIDDWriter._construct_block_bounds", "NITFWriter._construct_block_bounds"),
-   ("NITFReader._get_dtypes body", "image_header = self.get_image_header(image_segment_index); return _get_dtype(image_header)"),
+  [("NITFReader._get_dtypes body", "image_header = self.get_image_header(image_segment_index); return _get_dtype(image_header)"),
    ("NITFWriter._get_dtypes body", "image_header = self.get_image_header(image_segment_index); return _get_dtype(image_header)"),
    ("NITFReader.get_format_function body", "return _get_format_function(raw_dtype, complex_order, lut, band_dimension)"),
    ("NITFWriter.get_format_function body", "return _get_format_function(raw_dtype, complex_order, lut, band_dimension)"),
@@ -276,6 +260,26 @@ def glue : List (String × String) :=
    ("NITFWriter._construct_block_bounds body", "image_header = self.get_image_header(image_segment_index); return _construct_block_bounds(image_header)"),
    ("NITFReader.check_for_compliance body", "out = []; for index, img_header in enumerate(self.nitf_details.img_headers):     if not self._check_image_segment_for_compliance(index, img_header):         out.append(index); return tuple(out)"),
    ("NITFWriter._verify_image_segments body", "for index, entry in enumerate(self.image_managers):     if entry.item_bytes is not None:         raise ValueError('The item_bytes is populated for image segment {}.\\n\\tThis is incompatible with array-type image writing'.format(index))     subhead = entry.subheader     self._check_image_segment_for_compliance(index, subhead)")]
+
+def glueSicd : List (String × String) :=
+  [("SICDReader._get_dtypes", "NITFReader._get_dtypes"),
+   ("SICDReader.get_format_function", "SICDReader.get_format_function"),
+   ("SICDReader._check_image_segment_for_compliance", "SICDReader._check_image_segment_for_compliance"),
+   ("SICDReader._construct_block_bounds", "NITFReader._construct_block_bounds"),
+   ("SICDWriter._get_dtypes", "NITFWriter._get_dtypes"),
+   ("SICDWriter.get_format_function", "SICDWriter.get_format_function"),
+   ("SICDWriter._check_image_segment_for_compliance", "NITFWriter._check_image_segment_for_compliance"),
+   ("SICDWriter._construct_block_bounds", "NITFWriter._construct_block_bounds")]
+
+def glueSidd : List (String × String) :=
+  [("SIDDReader._get_dtypes", "NITFReader._get_dtypes"),
+   ("SIDDReader.get_format_function", "NITFReader.get_format_function"),
+   ("SIDDReader._check_image_segment_for_compliance", "SIDDReader._check_image_segment_for_compliance"),
+   ("SIDDReader._construct_block_bounds", "NITFReader._construct_block_bounds"),
+   ("SIDDWriter._get_dtypes", "NITFWriter._get_dtypes"),
+   ("SIDDWriter.get_format_function", "NITFWriter.get_format_function"),
+   ("SIDDWriter._check_image_segment_for_compliance", "NITFWriter._check_image_segment_for_compliance"),
+   ("SIDDWriter._construct_block_bounds", "NITFWriter._construct_block_bounds")]
 
 /-! ### hand models: the order in which a reader / writer uses the pieces -/
 
